@@ -33,46 +33,55 @@ def preferred_null(cls):
     return "" if "" in d else list(d)[0]
 
 
-def check_field(out, ann, name, text, cls):
-    """The fixpoint property on the implementation for one accepted field."""
+def eval_field(ann, name, text, cls):
+    """The fixpoint property on the implementation for one field text under column class `cls`.
+    -> {"status": "rejected" | "accepted", "failures": [...], "rendered": ..., "value": ..., "reparsed": ..., "rerendered": ...}"""
     where = {"scheme": ann, "column": name, "text": text}
+    e = {"status": "rejected", "failures": []}
+    fails = e["failures"]
     try:
         c1 = cls.build(name=name, value=text, column_index=0)
-    except Exception:  # noqa
-        return "rejected"
+    except Exception as x:  # noqa
+        e["why"] = "build raised %s" % type(x).__name__
+        return e
     if type(c1).__name__ == "MafColumnRecord" and cls.__name__ != "MafColumnRecord":
-        return "rejected"
+        e["why"] = "built a plain MafColumnRecord"
+        return e
     if c1.validate():
-        return "rejected"
-    s1 = str(c1)
+        e["why"] = "validation errors"
+        return e
+    e["status"] = "accepted"
+    e["value"] = impl.enc_val(c1.value)
+    s1 = e["rendered"] = str(c1)
     if any(ch in s1 for ch in SEPS):
-        out.failures.append(dict(where, what="rendered field contains a tab or line break", kind="separator", rendered=s1))
-        return "accepted"
+        fails.append(dict(where, what="rendered field contains a tab or line break", kind="separator", rendered=s1))
+        return e
     if c1.is_null():
         pn = preferred_null(cls)
         if s1 != pn:
-            out.failures.append(dict(where, what="null value is not rendered as the preferred null spelling",
-                                     kind="null-spelling", rendered=s1, expected=pn))
+            fails.append(dict(where, what="null value is not rendered as the preferred null spelling",
+                              kind="null-spelling", rendered=s1, expected=pn))
     try:
         c2 = cls.build(name=name, value=s1, column_index=0)
         errs = c2.validate()
-    except Exception as e:  # noqa
-        out.failures.append(dict(where, what="rendering of an accepted field is not accepted", kind="reparse",
-                                 rendered=s1, got=repr(e)))
-        return "accepted"
+    except Exception as x:  # noqa
+        fails.append(dict(where, what="rendering of an accepted field is not accepted", kind="reparse",
+                          rendered=s1, got=repr(x)))
+        return e
     if errs:
-        out.failures.append(dict(where, what="rendering of an accepted field is not accepted", kind="reparse",
-                                 rendered=s1, got=[e.tpe.name for e in errs]))
-        return "accepted"
-    v1, v2 = impl.enc_val(c1.value), impl.enc_val(c2.value)
+        fails.append(dict(where, what="rendering of an accepted field is not accepted", kind="reparse",
+                          rendered=s1, got=[x.tpe.name for x in errs]))
+        return e
+    v1, v2 = e["value"], impl.enc_val(c2.value)
+    e["reparsed"] = v2
     nan = v1.get("t") == "float" and v1["v"] == "nan"
     if not nan and not py_eq(v1, v2):
-        out.failures.append(dict(where, what="value changes across render + parse", kind="value-changed",
-                                 rendered=s1, value=v1, reparsed=v2))
-    s2 = str(c2)
+        fails.append(dict(where, what="value changes across render + parse", kind="value-changed",
+                          rendered=s1, value=v1, reparsed=v2))
+    s2 = e["rerendered"] = str(c2)
     if s2 != s1:
-        out.failures.append(dict(where, what="rendering is not a fixpoint", kind="not-fixpoint", rendered=s1, rerendered=s2))
-    return "accepted"
+        fails.append(dict(where, what="rendering is not a fixpoint", kind="not-fixpoint", rendered=s1, rerendered=s2))
+    return e
 
 
 def field_cases(ctx, out, per_sig_uses):
@@ -86,116 +95,204 @@ def field_cases(ctx, out, per_sig_uses):
                 if any(ch in t for ch in SEPS):
                     continue
                 out.evaluations += 1
-                k = check_field(out, ann, name, t, cls)
+                e = eval_field(ann, name, t, cls)
+                out.failures += e["failures"]
+                k = e["status"]
                 out.distribution["field:" + k] += 1
                 if k == "accepted":
                     out.nontrivial.add((sig, t))
                     # correspondence: the model renders and re-parses the same way
-                    reqs.append((colcases.build_req(ann, name, t, 0), cls))
+                    reqs.append(colcases.build_req(ann, name, t, 0))
                     if len(out.samples) < 4 and t:
                         out.sample({"scheme": ann, "column": name, "text": t, "rendered": str(cls.build(name=name, value=t))})
-    # model side: build, then build the model's own rendering
-    mo = ctx.driver.run([r for r, _ in reqs])
+    unmodelled, dontcare, dis, _d = compare_model(ctx, reqs)
+    out.unmodelled += unmodelled
+    out.dontcare += dontcare
+    out.disagreements += dis
+
+
+def compare_model(ctx, reqs):
+    """Model side of accepted fields: build, then build the model's own rendering; both compared with the
+    implementation.  -> (unmodelled, dontcare, disagreements, {index of request: [(request, model, impl), ...]})"""
+    mo = ctx.driver.run(reqs)
+    unmodelled, dontcare, dis, detail = 0, 0, [], {}
     second = []
-    for (r, cls), m in zip(reqs, mo):
+    for k, (r, m) in enumerate(zip(reqs, mo)):
         i = impl.run(r)
+        detail[k] = [(r, m, i)]
         if has_unmodelled(m):
-            out.unmodelled += 1
+            unmodelled += 1
             continue
         if m != i:
             if colcases.dontcare_numeric(r["text"]) or colcases.dontcare_uuid(r["text"]):
-                out.dontcare += 1
+                dontcare += 1
             else:
-                out.disagreements.append({"op": "col.build", "request": r, "model": m, "impl": i})
+                dis.append({"op": "col.build", "request": r, "model": m, "impl": i})
             continue
         s1 = m["col"]["str"].get("ok")
         if s1 is not None and is_model_text(s1):
-            second.append(colcases.build_req(r["scheme"], r["col"], s1, 0))
-    mo2 = ctx.driver.run(second)
-    for r, m in zip(second, mo2):
+            second.append((k, colcases.build_req(r["scheme"], r["col"], s1, 0)))
+    mo2 = ctx.driver.run([r for _k, r in second])
+    for (k, r), m in zip(second, mo2):
         i = impl.run(r)
+        detail[k].append((r, m, i))
         if not has_unmodelled(m) and m != i and not (colcases.dontcare_numeric(r["text"]) or colcases.dontcare_uuid(r["text"])):
-            out.disagreements.append({"op": "col.build(rendered)", "request": r, "model": m, "impl": i})
+            dis.append({"op": "col.build(rendered)", "request": r, "model": m, "impl": i})
+    return unmodelled, dontcare, dis, detail
+
+
+def eval_line(ann, line):
+    """One whole line: str(record) re-parses to an equal record and renders to itself.
+    -> {"status": "not-accepted" | "accepted", "failures": [...], "rendered": ..., "rerendered": ...}"""
+    from maflib.record import MafRecord
+    from maflib.validation import ValidationStringency
+    sch = impl.scheme_by_annotation(ann)
+    fields = line.split("\t")
+    e = {"status": "not-accepted", "failures": []}
+    fails = e["failures"]
+    r1 = MafRecord.from_line(line, scheme=sch, validation_stringency=ValidationStringency.Silent)
+    if r1.validation_errors:
+        e["errors"] = [x.tpe.name for x in r1.validation_errors]
+        return e
+    e["status"] = "accepted"
+    s1 = e["rendered"] = str(r1)
+    where = {"scheme": ann, "line": line}
+    if len(s1.split("\t")) != len(fields) or "\n" in s1 or "\r" in s1:
+        fails.append(dict(where, what="rendered line has a different field count or a line break",
+                          kind="separator", rendered=s1))
+        return e
+    r2 = MafRecord.from_line(s1, scheme=sch, validation_stringency=ValidationStringency.Silent)
+    if r2.validation_errors:
+        fails.append(dict(where, what="rendered line is not accepted", kind="reparse", rendered=s1,
+                          got=[x.tpe.name for x in r2.validation_errors]))
+        return e
+    v1 = [impl.enc_val(v) for v in r1.column_values()]
+    v2 = [impl.enc_val(v) for v in r2.column_values()]
+    for k, (a, b) in enumerate(zip(v1, v2)):
+        if not py_eq(a, b) and not (a.get("t") == "float" and a["v"] == "nan"):
+            fails.append(dict(where, what="value changes across render + parse", kind="value-changed",
+                              column=sch.column_names()[k], text=fields[k], value=a, reparsed=b))
+            break
+    e["rerendered"] = str(r2)
+    if e["rerendered"] != s1:
+        fails.append(dict(where, what="rendering is not a fixpoint", kind="not-fixpoint",
+                          rendered=s1, rerendered=e["rerendered"]))
+    return e
 
 
 def line_cases(ctx, out, per_scheme):
     """Whole accepted lines: str(record) re-parses to an equal record and renders to itself."""
-    from maflib.record import MafRecord
-    from maflib.validation import ValidationStringency
     rng = ctx.rng("lines")
     for ann in impl.builtin_annotations():
-        sch = impl.scheme_by_annotation(ann)
         for _ in range(per_scheme):
             fields = colcases.valid_fields(ann, rng)
             line = "\t".join(fields)
             out.evaluations += 1
-            r1 = MafRecord.from_line(line, scheme=sch, validation_stringency=ValidationStringency.Silent)
-            if r1.validation_errors:
-                out.distribution["line:not-accepted"] += 1
-                continue
-            out.distribution["line:accepted"] += 1
-            out.nontrivial.add((ann, line))
-            s1 = str(r1)
-            where = {"scheme": ann, "line": line}
-            if len(s1.split("\t")) != len(fields) or "\n" in s1 or "\r" in s1:
-                out.failures.append(dict(where, what="rendered line has a different field count or a line break",
-                                         kind="separator", rendered=s1))
-                continue
-            r2 = MafRecord.from_line(s1, scheme=sch, validation_stringency=ValidationStringency.Silent)
-            if r2.validation_errors:
-                out.failures.append(dict(where, what="rendered line is not accepted", kind="reparse", rendered=s1,
-                                         got=[e.tpe.name for e in r2.validation_errors]))
-                continue
-            v1 = [impl.enc_val(v) for v in r1.column_values()]
-            v2 = [impl.enc_val(v) for v in r2.column_values()]
-            for k, (a, b) in enumerate(zip(v1, v2)):
-                if not py_eq(a, b) and not (a.get("t") == "float" and a["v"] == "nan"):
-                    out.failures.append(dict(where, what="value changes across render + parse", kind="value-changed",
-                                             column=sch.column_names()[k], text=fields[k], value=a, reparsed=b))
-                    break
-            if str(r2) != s1:
-                out.failures.append(dict(where, what="rendering is not a fixpoint", kind="not-fixpoint",
-                                         rendered=s1, rerendered=str(r2)))
+            e = eval_line(ann, line)
+            out.distribution["line:" + e["status"]] += 1
+            if e["status"] == "accepted":
+                out.nontrivial.add((ann, line))
+            out.failures += e["failures"]
 
 
-def custom_mixins(ctx, out):
-    """Mixin types synthesised by scheme inheritance beyond the built-in ones: a column redefined with another
-    (nullable) type.  Base and derived classes are exercised alternately in one process."""
+MIXIN_BASE = [["Entrez_Gene_Id", "EntrezGeneId"], ["Depth", "NullableZeroBasedIntegerColumn"], ["Note", "NullableStringColumn"],
+              ["Flag", "NullableYesOrNo"], ["Alleles", "NullableDnaString"], ["Ids", "SequenceOfIntegers"], ["Score", "NullableFloatColumn"]]
+MIXIN_OVER = [["Entrez_Gene_Id", "NullableIntegerColumn"], ["Depth", "RequireNullValue"], ["Note", "StringColumn"], ["Flag", "RequireNullValue"],
+              ["Alleles", "DnaString"], ["Score", "RequireNullValue"]]
+MIXIN_PRIOR_MAXLEN = 64
+
+
+def mixin_schemes():
+    """The base scheme m-1.0.0 and m-1.0.0-derived, which redefines columns of it with another (nullable) type."""
     import json as _json
     import os
     import tempfile
     from maflib.column_types import get_column_types
     from maflib.scheme_factory import build_schemes, load_all_scheme_data
-    rng = ctx.rng("mixins")
-    base_cols = [["Entrez_Gene_Id", "EntrezGeneId"], ["Depth", "NullableZeroBasedIntegerColumn"], ["Note", "NullableStringColumn"],
-                 ["Flag", "NullableYesOrNo"], ["Alleles", "NullableDnaString"], ["Ids", "SequenceOfIntegers"], ["Score", "NullableFloatColumn"]]
-    over = [["Entrez_Gene_Id", "NullableIntegerColumn"], ["Depth", "RequireNullValue"], ["Note", "StringColumn"], ["Flag", "RequireNullValue"],
-            ["Alleles", "DnaString"], ["Score", "RequireNullValue"]]
-    defs = [{"version": "m-1.0.0", "annotation-spec": "m-1.0.0", "extends": "None", "filtered": "None", "columns": base_cols},
-            {"version": "m-1.0.0", "annotation-spec": "m-1.0.0-derived", "extends": "m-1.0.0", "filtered": "None", "columns": over}]
+    defs = [{"version": "m-1.0.0", "annotation-spec": "m-1.0.0", "extends": "None", "filtered": "None", "columns": MIXIN_BASE},
+            {"version": "m-1.0.0", "annotation-spec": "m-1.0.0-derived", "extends": "m-1.0.0", "filtered": "None", "columns": MIXIN_OVER}]
     with tempfile.TemporaryDirectory() as d:
         paths = []
         for k, df in enumerate(defs):
             p = os.path.join(d, "m%d.json" % k)
             _json.dump(df, open(p, "w"))
             paths.append(p)
-        try:
-            schemes = build_schemes(load_all_scheme_data(paths, get_column_types()))
-        except Exception as e:  # noqa
-            out.notes.append("custom mixin schemes could not be built: %r" % e)
-            return
-    b, dv = schemes["m-1.0.0"](), schemes["m-1.0.0-derived"]()
-    for name, _t in base_cols:
+        schemes = build_schemes(load_all_scheme_data(paths, get_column_types()))
+    return schemes["m-1.0.0"](), schemes["m-1.0.0-derived"]()
+
+
+def eval_mixin_text(b, dv, name, t):
+    """One text on the base class, the derived class and the base class again (same process).
+    -> [(scheme tag, eval_field result), ...]"""
+    return [(tag, eval_field(tag, name, t, sch.column_class(name)))
+            for sch, tag in ((b, "m-1.0.0"), (dv, "m-1.0.0-derived"), (b, "m-1.0.0"))]
+
+
+def custom_mixins(ctx, out):
+    """Mixin types synthesised by scheme inheritance beyond the built-in ones: a column redefined with another
+    (nullable) type.  Base and derived classes are exercised alternately in one process.  A failure carries the
+    texts of the same column that were exercised (and accepted by either class) before it: `prior`."""
+    rng = ctx.rng("mixins")
+    try:
+        b, dv = mixin_schemes()
+    except Exception as e:  # noqa
+        out.notes.append("custom mixin schemes could not be built: %r" % e)
+        return
+    for name, _t in MIXIN_BASE:
         pool = colcases.pool_for(b.column_class(name), rng)
+        prior = []
         for t in pool:
             if any(ch in t for ch in SEPS):
                 continue
-            for sch, tag in ((b, "m-1.0.0"), (dv, "m-1.0.0-derived"), (b, "m-1.0.0")):
+            accepted = False
+            for tag, e in eval_mixin_text(b, dv, name, t):
                 out.evaluations += 1
-                k = check_field(out, tag, name, t, sch.column_class(name))
+                out.failures += [dict(f, mixin=True, prior=list(prior)) for f in e["failures"]]
+                k = e["status"]
                 if k == "accepted":
+                    accepted = True
                     out.nontrivial.add((tag, name, t))
                 out.distribution["mixin:" + k] += 1
+            if accepted and len(t) <= MIXIN_PRIOR_MAXLEN:
+                prior.append(t)
+
+
+def eval_float_law(t):
+    """FloatHost laws on one text -> (counted, failures)."""
+    try:
+        f = float(t)
+    except ValueError:
+        return 0, []
+    fails = []
+    r = repr(f)
+    if f == f and float(r) != f:
+        fails.append({"what": "float(repr(f)) != f", "kind": "float-law", "law": "float", "text": t})
+    if not r or any(c in r for c in "\t\r\n;"):
+        fails.append({"what": "repr(float) contains a separator", "kind": "float-law", "law": "float", "text": t})
+    return 1, fails
+
+
+def eval_int_law(t):
+    """law parse_int (used for StringIntegerOrFloatColumn): float() accepts every integer literal -> (counted, failures)."""
+    if not t.isascii():
+        return 0, []
+    try:
+        int(t)
+    except ValueError:
+        return 0, []
+    try:
+        float(t)
+    except (ValueError, OverflowError):
+        return 1, [{"what": "float() rejects an integer literal", "kind": "float-law", "law": "int", "text": t}]
+    return 1, []
+
+
+def eval_empty_law():
+    try:
+        float("")
+        return [{"what": "float('') accepted", "kind": "float-law", "law": "empty"}]
+    except ValueError:
+        return []
 
 
 def float_laws(ctx, out):
@@ -204,35 +301,15 @@ def float_laws(ctx, out):
     from ..textgen import float_texts
     n = 0
     for t in float_texts(rng) + [repr(rng.uniform(-1e9, 1e9)) for _ in range(200)] + [repr(rng.random() * 10 ** rng.randrange(-300, 300)) for _ in range(200)]:
-        try:
-            f = float(t)
-        except ValueError:
-            continue
-        n += 1
-        r = repr(f)
-        if f == f and float(r) != f:
-            out.failures.append({"what": "float(repr(f)) != f", "kind": "float-law", "text": t})
-        if not r or any(c in r for c in "\t\r\n;"):
-            out.failures.append({"what": "repr(float) contains a separator", "kind": "float-law", "text": t})
-    # law parse_int (used for StringIntegerOrFloatColumn): float() accepts every integer literal
+        c, fails = eval_float_law(t)
+        n += c
+        out.failures += fails
     from ..textgen import int_texts
     for t in int_texts(rng) + [str(rng.randrange(-10**30, 10**30)) for _ in range(100)]:
-        if not t.isascii():
-            continue
-        try:
-            int(t)
-        except ValueError:
-            continue
-        n += 1
-        try:
-            float(t)
-        except (ValueError, OverflowError):
-            out.failures.append({"what": "float() rejects an integer literal", "kind": "float-law", "text": t})
-    try:
-        float("")
-        out.failures.append({"what": "float('') accepted", "kind": "float-law"})
-    except ValueError:
-        pass
+        c, fails = eval_int_law(t)
+        n += c
+        out.failures += fails
+    out.failures += eval_empty_law()
     out.extra["float_law_checks"] = n
 
 
@@ -250,4 +327,90 @@ def run(ctx):
 
 def search(ctx):
     return run(ctx)
+
+
+# ------------------------------------------------------------------ replay
+def _short(x, n=300):
+    import json
+    t = x if isinstance(x, str) else json.dumps(x, default=str, ensure_ascii=True)
+    return t if len(t) <= n else t[:n] + "... (%d chars)" % len(t)
+
+
+def _field_account(tag, cls, name, text, e):
+    if e["status"] == "rejected":
+        return "%s %s.build(%r, %r): not accepted (%s)" % (tag, cls.__name__, name, text, e.get("why"))
+    return "%s %s.build(%r, %r): value %s, rendered %r, re-parsed %s, re-rendered %r" % (
+        tag, cls.__name__, name, text, _short(e.get("value"), 120), e.get("rendered"),
+        _short(e.get("reparsed", "-"), 120), e.get("rerendered", "-"))
+
+
+def replay_case(ctx, failure):
+    """Re-evaluate the stored text / line on the current implementation; the failures it produces now
+    ([] = render + parse is a value-preserving fixpoint on it; None = inputs not stored: regenerate from the seed)."""
+    f = failure
+    if f.get("kind") == "float-law":
+        law = f.get("law")
+        if law == "empty":
+            fails = eval_empty_law()
+        elif law in ("float", "int") and "text" in f:
+            fails = (eval_float_law if law == "float" else eval_int_law)(f["text"])[1]
+        else:
+            return None
+        print("replay C04 float law (%s) of the host on %r: %d failure(s) (CPython only: no implementation or model involved)"
+              % (law, f.get("text", ""), len(fails)))
+        return fails
+    if "line" in f and "scheme" in f:
+        if impl.scheme_by_annotation(f["scheme"]) is None:
+            return None
+        e = eval_line(f["scheme"], f["line"])
+        print("replay C04 line: str(MafRecord.from_line(<%d fields>, scheme=%s, Silent)), parsed and rendered again (implementation only)"
+              % (len(f["line"].split("\t")), f["scheme"]))
+        print("  line:        %s" % _short(f["line"]))
+        if e["status"] != "accepted":
+            print("  implementation: line not accepted (%s): outside the property" % _short(e.get("errors")))
+        else:
+            print("  rendered:    %s" % _short(e["rendered"]))
+            print("  re-rendered: %s" % ("identical" if e.get("rerendered") == e["rendered"] else _short(e.get("rerendered", "-"))))
+        print("  oracle: %d failure(s)%s" % (len(e["failures"]), "".join("\n    - %s%s" % (x["what"], " (column %s, text %r: %s -> %s)" % (
+            x["column"], x["text"], _short(x["value"], 100), _short(x["reparsed"], 100)) if x["kind"] == "value-changed" else "") for x in e["failures"])))
+        return e["failures"]
+    if not all(k in f for k in ("scheme", "column", "text")):
+        return None
+    ann, name, text = f["scheme"], f["column"], f["text"]
+    if ann.startswith("m-1.0.0"):
+        # a synthesised mixin type: base / derived / base in one process, after the texts exercised before it
+        if "prior" not in f:
+            return None
+        try:
+            b, dv = mixin_schemes()
+        except Exception as x:  # noqa
+            print("replay C04: custom mixin schemes could not be built: %r" % x)
+            return None
+        if name not in b.column_names():
+            return None
+        for t in f["prior"]:
+            eval_mixin_text(b, dv, name, t)
+        print("replay C04 mixin column %s (%s in m-1.0.0, redefined in m-1.0.0-derived), text %r, after %d earlier text(s) of the same column "
+              "on base/derived/base (implementation only)" % (name, b.column_class(name).__name__, text, len(f["prior"])))
+        fails = []
+        for tag, e in eval_mixin_text(b, dv, name, text):
+            print("  " + _field_account(tag, (b if tag == "m-1.0.0" else dv).column_class(name), name, text, e))
+            fails += [dict(x, mixin=True, prior=list(f["prior"])) for x in e["failures"]]
+        print("  oracle: %d failure(s)%s" % (len(fails), "".join("\n    - %s: %s" % (x["scheme"], x["what"]) for x in fails)))
+        return fails
+    sch = impl.scheme_by_annotation(ann)
+    if sch is None or name not in sch.column_names():
+        return None
+    cls = sch.column_class(name)
+    e = eval_field(ann, name, text, cls)
+    print("replay C04 field: render + parse of one field text")
+    print("  implementation: " + _field_account(ann, cls, name, text, e))
+    if is_model_text(text):
+        _u, _d, dis, detail = compare_model(ctx, [colcases.build_req(ann, name, text, 0)])
+        for r, m, i in detail[0]:
+            col = m.get("col") or {}
+            print("  model: build(%r) -> %s (%s)" % (r["text"], _short({"value": col.get("value"), "invalid": col.get("invalid"), "str": col.get("str")} if col else m, 200),
+                                                  "outside the model" if has_unmodelled(m) else "agrees" if m == i else "differs"))
+    print("  oracle: %d failure(s)%s" % (len(e["failures"]), "".join("\n    - " + x["what"] for x in e["failures"])))
+    return e["failures"]
 
